@@ -41,7 +41,8 @@ NOT_APPLICABLE = {
 
 PROPS = {
     'C02': dict(
-        rules=[r_linear.rule_L05_from_scratch, r_linear.rule_L05w_compositions, r_linear.rule_L03_all_methods],
+        rules=[r_linear.rule_L05_from_scratch, r_linear.rule_L05w_compositions, r_linear.rule_L03_all_methods,
+               lambda ctx: r_step.s07_step_once(ctx, only_types='windowed', rule_id='S07w')],
         feature_sets=_sets(['default'], ['default', 'u16', 'f32']),
         rules_thorough=[on_build(r_linear.rule_L05_from_scratch, 'u16'), on_build(r_linear.rule_L05_from_scratch, 'f32')],
         explanation=('(L05) for the single-window linear methods SMA, WMA, LinReg, Momentum, Derivative, Past and the windowed Integral: the window of the last n inputs is abstracted by its '
@@ -56,7 +57,8 @@ PROPS = {
                      'WMA(n/2), WMA(n), WMA(floor sqrt n), all seeded with the first value; next() steps every component exactly once on every path, feeds them input / input and out0 resp. input / input / 2*out0 - out1 and returns the last output. '
                      '(L03m) dimensional analysis of every method over a single value (30 methods, the non-linear ones included: StDev, CCI, MeanAbsDev, LinearVolatility, RateOfChange, Vidya, TSI ...): the stream carries the unit price; '
                      'no comparison of a price-scaled quantity with an absolute non-zero constant and no sum of quantities of different dimension - the documented formulas are homogeneous, so such a test (`mean_deviation > EPSILON`) '
-                     'makes the output differ from the formula on streams of another scale (the property quantifies over abrupt changes of scale).'),
+                     'makes the output differ from the formula on streams of another scale (the property quantifies over abrupt changes of scale). '
+                     '(S07w) every window (and every windowed inner method) of every method and indicator is advanced exactly once on every path of next(): the window then holds the last n inputs, which is what "evaluated from scratch on the last length inputs" presupposes (windowed ADI, StDev, CCI and the other methods outside L05 included).'),
         not_decided=['SWMA (two windows updated by one function; its weight sum is decided by L01 under C15), Conv (loop), VWMA (product of two streams), StDev / LinearVolatility / CCI / MeanAbsDev / MedianAbsDev (quadratic or selection), RateOfChange (ratio), windowed ADI (candle input): outside the moment domain, not decided',
                      'the floating-point rounding allowance: the argument is over the reals; that the incremental sums do not drift is C07\'s subject'],
         assumptions=TRUST,
